@@ -5,7 +5,7 @@ namespace BfeVerif.C33
 /-- accounting in the middle of an event: `u` octets are counted in `sent` but not yet decided
     (debited or refused), `d` octets are debited and still have to be credited back -/
 def AcctD (s : St) (d u : Int) : Prop :=
-  s.sent = s.wu0 + s.held + s.rej + d + u ∧
+  s.sent = s.wu0 + s.held + s.infl + s.rej + d + u ∧
   s.conn = 65535 - s.sent + s.rej + s.wu0 + u ∧
   0 ≤ s.conn
 
@@ -125,10 +125,12 @@ theorem handlerRead_acct (s : St) (id n : Nat) (h : Acct s) : Acct (handlerRead 
       · exact h
       · split
         · exact h
-        · simp only []
-          split
+        · split
           · exact h
-          · split <;> (unfold Acct AcctD at *; simp only [] at *; omega)
+          · simp only []
+            split
+            · exact h
+            · split <;> (unfold Acct AcctD at *; simp only [] at *; omega)
 
 theorem handlerClose_acct (s : St) (id : Nat) (h : Acct s) : Acct (handlerClose s id).2.2 := by
   unfold handlerClose
@@ -136,7 +138,9 @@ theorem handlerClose_acct (s : St) (id : Nat) (h : Acct s) : Acct (handlerClose 
   · exact h
   · split
     · exact h
-    · exact h
+    · split
+      · exact h
+      · exact h
 
 theorem exitClose_acct (s : St) (x : Stream) (h : Acct s) : Acct (exitClose s x).2 := by
   unfold exitClose
@@ -151,13 +155,45 @@ theorem handlerExit_acct (s : St) (id : Nat) (h : Acct s) : Acct (handlerExit s 
   · exact h
   · split
     · exact h
-    · rename_i x _ _
-      have h1 := exitClose_acct s x h
-      simp only []
-      generalize exitClose s x = r at h1 ⊢
-      split
-      · exact h1
-      · exact h1
+    · split
+      · exact h
+      · rename_i x _ _ _
+        have h1 := exitClose_acct s x h
+        simp only []
+        generalize exitClose s x = r at h1 ⊢
+        split
+        · exact h1
+        · exact h1
+
+theorem handlerPull_acct (s : St) (id n : Nat) (h : Acct s) : Acct (handlerPull s id n).2.2 := by
+  unfold handlerPull
+  split
+  · exact h
+  · split
+    · exact h
+    · split
+      · exact h
+      · split
+        · exact h
+        · split
+          · exact h
+          · simp only []
+            split
+            · exact h
+            · unfold Acct AcctD at *; simp only [] at *; omega
+
+theorem deliverNote_acct (s : St) (id : Nat) (h : Acct s) : Acct (deliverNote s id).2.2 := by
+  unfold deliverNote
+  split
+  · exact h
+  · split
+    · exact h
+    · simp only []
+      split <;> (unfold Acct AcctD at *; simp only [] at *; omega)
+
+theorem serverReset_acct (s : St) (id : Nat) (h : Acct s) : Acct (serverReset s id).2 := by
+  unfold serverReset
+  exact resetStream_acct _ _ 0 0 h
 
 theorem processRst_acct (s : St) (id : Nat) (h : Acct s) : Acct (processRst s id).2 := by
   unfold processRst
@@ -186,6 +222,23 @@ theorem step_acct (s : St) (ev : Ev) (h : Acct s) : Acct (step s ev).2.2 := by
   | closeBody id => exact handlerClose_acct s id h
   | exit id => exact handlerExit_acct s id h
   | rst id => exact processRst_acct s id h
+  | pull id n => exact handlerPull_acct s id n h
+  | deliver id => exact deliverNote_acct s id h
+  | srvReset id => exact serverReset_acct s id h
+  | readThenClose id n how =>
+    simp only [step]
+    split
+    · exact handlerPull_acct s id n h
+    · have ha := handlerPull_acct s id n h
+      have hb : Acct (if how == 0 then processRst (handlerPull s id n).2.2 id
+          else if how == 1 then serverReset (handlerPull s id n).2.2 id
+          else (([] : List Fr), (handlerPull s id n).2.2)).2 := by
+        split
+        · exact processRst_acct _ id ha
+        · split
+          · exact serverReset_acct _ id ha
+          · exact ha
+      exact deliverNote_acct _ id hb
 
 theorem run_acct (evs : List Ev) : ∀ s, Acct s → Acct (runEvs s evs) := by
   induction evs with
